@@ -488,6 +488,19 @@ def replay_deaf_server(body):
     return (0 if ok else 1), ('after one failed accept the node never accepts a connection again' if not ok else 'the server was bound again')
 
 
+def replay_stale_own_dump(body):
+    """runs repros/D22_stale_own_dump_overwrites_installed_snapshot.py: a follower's own slow forked dump finishes after it installed a newer
+    snapshot from the leader; after a restart the journal entries it acknowledged must still be there"""
+    import subprocess
+    here = os.path.dirname(os.path.abspath(__file__))
+    p = subprocess.run([sys.executable, os.path.join(here, 'repros', 'D22_stale_own_dump_overwrites_installed_snapshot.py')], stdout=subprocess.PIPE, stderr=subprocess.STDOUT,
+                       env=dict(os.environ), timeout=100)
+    txt = p.stdout.decode('utf-8', 'replace').strip().split('\n')
+    for l in txt[-3:]:
+        out(l)
+    return (1 if p.returncode == 1 else 0), ('the older own dump was renamed over the installed snapshot: the restarted node forgot acknowledged entries' if p.returncode == 1 else 'the own dump child was stopped')
+
+
 def replay_meta(body):
     """kill-point enumeration on the real MetaStorer.storeMeta: the k-th primitive file operation (open / write / flush / close /
     os.remove / os.rename / shutil.move ...) is the last one to happen before the process dies; the .meta file is then read back"""
@@ -620,6 +633,7 @@ REPLAYERS = {
     'ResizableFile.write': replay_journal, 'FileJournal.add': replay_journal, 'FileJournal.reopen': replay_journal,
     'FileJournal.deleteEntriesFrom': replay_journal, 'FileJournal.clear': replay_journal,
     'MetaStorer.storeMeta': replay_meta,
+    'serializer.setTransmissionData.file': replay_stale_own_dump,
     'transport.maybeBind': replay_deaf_server,
     'poller.select.dispatch': replay_select_dispatch,
     'bat.init-state-serialized': replay_battery_init,
